@@ -117,8 +117,13 @@ class ExprMixin:
             if o.tag == "val":
                 return o.z == L.VNONE
             return z3.BoolVal(False)
+        if a.tag == b.tag == "val":
+            # opaque objects: term equality is identity.  Strings / ints: two equal values need not be
+            # the same object, so `is` is an uninterpreted relation that merely implies equality.
+            valueish = Or(L.v_is_str(a.z), L.v_is_int(a.z), L.v_is_str(b.z), L.v_is_int(b.z))
+            return If(valueish, L.v_same(a.z, b.z), a.z == b.z)
         if a.tag == b.tag:
-            if a.tag in ("ref", "lref", "dref", "val", "bool", "int"):
+            if a.tag in ("ref", "lref", "dref", "bool", "int"):
                 return a.z == b.z
             if a.tag in ("str", "cls"):
                 return z3.BoolVal(a.z == b.z)
